@@ -7,6 +7,9 @@
 //   kind 4  {svar:k, {var:k}} with value {"k": s}                     (phrase pieces, {0} substitution)
 //   kind 5  {var:<s>} with an empty object                            (echo of an unresolved tag)
 //   kind 6  {var:k} written into a stream that already holds text (prefix "<&>")
+//   kind 7  {var:k} where value["k"] is a POINTER to a string value (SetPointerToValue)
+//   kind 8  <loop value="v">{var:v}</loop> over an array whose single item is a pointer to a string value
+//   kind 9  {raw:k} where value["k"] is a pointer to a string value
 // output: the emitted units
 #include "common.hpp"
 #include "JSON.hpp"
@@ -40,6 +43,21 @@ static std::string run_case(int kind, const std::vector<vf::u64> &units) {
                 const C pre[4] = {C('<'), C('&'), C('>'), C(0)};
                 ss.Write(pre, 3);
             }
+            Template::Render((const C *)t.p, (SizeT)t.n, v, ss);
+            break;
+        }
+        case 7:
+        case 8:
+        case 9: {
+            Value<C>        target{String<C>((const C *)buf.p, (SizeT)buf.n)};
+            Value<C>        v;
+            const C         key[2] = {C('k'), C(0)};
+            if (kind == 8) {
+                v.AddPointerToValue(&target);
+            } else {
+                v[key].SetPointerToValue(&target);
+            }
+            vf::ExactBuf<C> t(lit(kind == 7 ? "{var:k}" : (kind == 9 ? "{raw:k}" : "<loop value=\"v\">{var:v}</loop>")));
             Template::Render((const C *)t.p, (SizeT)t.n, v, ss);
             break;
         }
